@@ -62,6 +62,15 @@ def fold(node, env=None, ctors=()):
                 return hook[1](inner.func.id, [f(a) for a in inner.args], {k.arg: f(k.value) for k in inner.keywords if k.arg}, "@" + n.attr, [], {})
             if t.startswith("re.") and t[3:].isupper() and hasattr(_re, t[3:]):
                 return getattr(_re, t[3:])
+            if n.attr in ("value", "name"):
+                try:
+                    base = f(n.value)
+                except NotConst:
+                    base = None
+                if isinstance(base, EnumVal):
+                    return getattr(base, n.attr)
+                if n.attr == "value" and isinstance(base, int) and not isinstance(base, bool) and isinstance(n.value, ast.Name):
+                    return base       # a member of an IntEnum is its value
             raise NotConst(t)
         if isinstance(n, (ast.ListComp, ast.GeneratorExp, ast.SetComp)) and len(n.generators) == 1 and not n.generators[0].is_async:
             g = n.generators[0]
@@ -199,6 +208,13 @@ def fold(node, env=None, ctors=()):
                         return getattr(recv, n.func.attr)(*[f(a) for a in n.args])
                     except Exception as e:
                         raise NotConst(str(e))
+            if isinstance(n.func, ast.Attribute) and n.func.attr in ("decode", "hex") and not n.keywords:
+                recv = f(n.func.value)
+                if isinstance(recv, (bytes, bytearray)):
+                    try:
+                        return getattr(recv, n.func.attr)(*[f(a) for a in n.args])
+                    except Exception as e:
+                        raise NotConst(str(e))
             raise NotConst(fn)
         raise NotConst(type(n).__name__)
 
@@ -268,6 +284,13 @@ def module_env(repo):
                         continue
                     if [b.split(".")[-1] for b in c.bases] == ["Enum"] and not name.startswith("_") and not isinstance(v, EnumVal):
                         v = EnumVal(c.name, name, v)
+                        members = env.setdefault(c.name, [])       # iterating the Enum class yields its members in definition order (aliases excluded)
+                        if isinstance(members, list) and all(m_.value != v.value for m_ in members):
+                            members.append(v)
+                    if [b.split(".")[-1] for b in c.bases] in (["IntEnum"], ["IntFlag"]) and not name.startswith("_") and isinstance(v, int):
+                        members = env.setdefault(c.name, [])
+                        if isinstance(members, list) and v not in members:
+                            members.append(v)
                     env[k] = v
                     progress = True
     return env
